@@ -91,6 +91,7 @@ def run(chk, repo, tier):
     P12 = chk.rule('P12', 'ThetaRecord.update: the parameter cursor advances by the repeat count (value)xN of each theta',
                    floor=1)
     C04b.theta_cursor(chk, P12, repo)
+    C04b.run_p13_p15(chk, repo)
 
     tm = repo.module(f'{NM}.records.theta_record')
     om = repo.module(f'{NM}.records.omega_record')
